@@ -491,6 +491,14 @@ impl ZoneInfoNames {
     }
 
     fn reset(&self) {
+        #[cfg(jiff_verif)]
+        {
+            let mut inner = self.inner.write().unwrap();
+            inner.reset();
+            crate::__verif::emit("names_reset", "", 0, 0);
+            return;
+        }
+        #[allow(unreachable_code)]
         self.inner.write().unwrap().reset();
     }
 }
